@@ -20,8 +20,15 @@ UNITS = {
         {"name": "C06_INP", "test": "TestC06_INP", "quick": 1500, "thorough": 20000, "shards": 12},
         {"name": "C06_BIN", "test": "TestC06_BIN", "quick": 200, "thorough": 2000, "shards": 4, "bin": True},
     ],
+    "C07": [
+        {"name": "C07_INP", "test": "TestC07_INP", "quick": 240, "thorough": 4000, "shards": 8},
+        {"name": "C07_BIN", "test": "TestC07_BIN", "quick": 60, "thorough": 800, "shards": 4, "bin": True},
+    ],
     "C08": [
         {"name": "C08_INP", "test": "TestC08_INP", "quick": 3000, "thorough": 60000, "shards": 16},
+    ],
+    "C09": [
+        {"name": "C09_RACE", "test": "TestC09_RACE", "quick": 60, "thorough": 900, "shards": 6, "bin": True, "race": True, "budget_quick": 900},
     ],
     "C10": [
         {"name": "C10_PKT", "test": "TestC10_PKT", "quick": 4000, "thorough": 100000, "shards": 16},
@@ -41,6 +48,10 @@ UNITS = {
 }
 
 RULES = {
+    "C07": "case = program of 1-16 (thorough: 1-64) concurrent tunnels (transport, user with own host 127.0.0.<user>, identifier style, set-up ok / other user's host / bad cookie, tagged traffic ops, ending) "
+           "preceded by an optional first generation whose hosts hang up, plus a legacy pairing probe; non-trivial = at least two overlapping tunnels of which one fails or ends other than by close",
+    "C09": "case = workload program: 2-12 concurrent clients (both transports, start offsets) each running a script of data bursts, host bursts, keep-alives, unknown packets and one ending (close / protocol error / FIN / RST, optionally while the host is still sending) "
+           "against a -race build of the real binary under GOMAXPROCS 2/4/16; non-trivial = at least two clients overlapping; oracle = no race report / runtime fault on stderr, strict framing of every received packet",
     "C11": "case = (transport, phase at which the tunnel ends 0-5, traffic in flight none/client/host/both, way of ending: CLOSE_CHANNEL, out-of-order packet, unframeable bytes, FIN or RST of websocket / legacy IN / legacy OUT); "
            "non-trivial = a backend connection existed or data was in flight; release bound 5 s",
     "C02": "case = sequence of 1-6 steps, each presenting one member of a token family built around a valid token (single-character/bit mutations, re-signing under other keys/algorithms, claim edits, JSON/nested forms, garbage) or changing the identity provider's state for an access token; "
